@@ -112,7 +112,13 @@ class Typing:
                 elif k == "ns": lines.append(('f%d' + FIELD_SUFFIX + ':[ubyte] (id: %d, nested_flatbuffer: "%s");') % (i, i, sname(f["a"], f["b"])))
             top = max(used) + 1 if used else 0
             for i in range(top):
-                if i not in used: lines.append("g%d:int (id: %d, deprecated);" % (i, i))
+                if i in used: continue
+                if self.unions and i + 1 < top and i + 1 not in used and (ti + i) % 2 == 0:
+                    # a deprecated union / union vector (two ids), declared BEFORE the live fields: generators that number unions per table must skip it
+                    lines.insert(0, "g%d:%sU%d%s (id: %d, deprecated);" % (i, "[" if i % 3 == 0 else "", (ti + i) % len(self.unions), "]" if i % 3 == 0 else "", i + 1))
+                    used.add(i); used.add(i + 1)
+                    continue
+                lines.append("g%d:int (id: %d, deprecated);" % (i, i))
             out.append("table T%d {\n  %s\n}" % (ti, "\n  ".join(lines)))
         if ident: out.append('file_identifier "%s";' % ident)
         out.append("root_type T0;")
